@@ -263,10 +263,16 @@ class ResourceManager:
             else:
                 assert False # :nocov:
 
-        value = resolve(resource,
-            *merge_options(resource, dir, xdr),
-            path=(f"{resource.name}_{resource.number}",),
-            attrs=resource.attrs)
+        # A request that is refused must leave the allocation unchanged.
+        phys_reqd, pins, io_clocks = self._phys_reqd.copy(), list(self._pins), dict(self._io_clocks)
+        try:
+            value = resolve(resource,
+                *merge_options(resource, dir, xdr),
+                path=(f"{resource.name}_{resource.number}",),
+                attrs=resource.attrs)
+        except BaseException:
+            self._phys_reqd, self._pins, self._io_clocks = phys_reqd, pins, io_clocks
+            raise
         self._requested[resource.name, resource.number] = value
         return value
 
